@@ -817,6 +817,10 @@ pub fn exec_tx(t: &[&str]) -> String {
         return "bad-op".into();
     }
     let Some(spec) = parse_spec(t[0]) else { return "bad-op".into() };
+    // before EIP-150 (Tangerine) `GAS CALL` always runs out of gas: the test programs need the 63/64 rule
+    if (spec as u8) < SpecId::TANGERINE as u8 {
+        return "bad-op".into();
+    }
     let entry = t[1];
     if entry != "static" && entry != "call" {
         return "bad-op".into();
@@ -901,7 +905,7 @@ fn hexs(b: &[u8]) -> String {
 }
 
 fn gen_tx(rng: &mut Rng, n: usize, out: &mut Vec<String>) {
-    let specs: Vec<u8> = crate::act::all_specs().iter().map(|s| *s as u8).collect();
+    let specs: Vec<u8> = crate::act::all_specs().iter().map(|s| *s as u8).filter(|s| *s >= 4).collect();
     let modern: Vec<u8> = specs.iter().cloned().filter(|s| *s >= 6).collect();
     let line = |rng: &mut Rng, spec: u8, entry: &str, schemes: &[&str], lvl: usize, op: &str| {
         let k = schemes.len() + 1;
